@@ -123,6 +123,10 @@ func materialise(dir string, ns []Node) {
 		case "d":
 			must(os.MkdirAll(p, 0o775))
 			materialise(p, n.Kids)
+		case "s": // a unix socket: something neither archive/tar nor a file copy can store
+			must(os.MkdirAll(filepath.Dir(p), 0o775))
+			must(syscall.Mknod(p, syscall.S_IFSOCK|0o644, 0))
+		case "m": // a declared output that does not exist
 		}
 	}
 }
@@ -1070,6 +1074,212 @@ func runRace(c *lib.Ctx, r *lib.Rng, compress bool, tree []Node, loops, maxRetri
 }
 
 // ---------------------------------------------------------------------------------------------
+// read faults: an output tree holds an entry the store cannot archive / copy (a unix socket) or a
+// declared output does not exist; Store returns normally (it only logs), then Retrieve.
+
+type FaultCase struct {
+	Kind     string   `json:"kind"` // fault
+	Compress bool     `json:"compress"`
+	CrossFS  bool     `json:"cross_fs"` // cache directory on another file system (links fall back to copies)
+	Tree     []Node   `json:"tree"`     // kinds f l d, s = unix socket, m = missing output
+	Outs     []string `json:"outs"`
+	Old      []Node   `json:"old,omitempty"`
+	OldOuts  []string `json:"old_outs,omitempty"`
+	FaultOut string   `json:"fault_out"` // the output whose walk fails
+	FaultAt  int      `json:"fault_at"`  // entries of that output walked before the failing one
+	FaultLen int      `json:"fault_len"` // storable entries of that output
+	Post     []Ent    `json:"post"`
+	Hit      bool     `json:"hit"`
+	Restored []Ent    `json:"restored,omitempty"`
+	Class    string   `json:"class"`
+}
+
+// otherFS returns a scratch directory on a file system other than the one of `scratch` ("" if none).
+func otherFS() string {
+	for _, base := range []string{"/dev/shm", "/run/shm", "/run"} {
+		d, err := os.MkdirTemp(base, "c12x-")
+		if err != nil {
+			continue
+		}
+		a, b := filepath.Join(scratch, "xdev-probe"), filepath.Join(d, "xdev-probe")
+		os.WriteFile(a, nil, 0o644)
+		err = os.Link(a, b)
+		os.Remove(a)
+		if le, ok := err.(*os.LinkError); ok && le.Err == syscall.EXDEV {
+			return d
+		}
+		os.RemoveAll(d)
+	}
+	return ""
+}
+
+// storable drops sockets and missing outputs from a forest.
+func storable(ns []Node) []Node {
+	var out []Node
+	for _, n := range ns {
+		if n.Kind == "s" || n.Kind == "m" {
+			continue
+		}
+		n.Kids = storable(n.Kids)
+		out = append(out, n)
+	}
+	return out
+}
+
+// faultPoint finds the unstorable entry: the output it lies in, how many entries of that output the
+// sorted walk meets before it, and how many storable entries the output has.
+func faultPoint(tree []Node) (out string, at, total int, found bool) {
+	for _, top := range tree {
+		var all []Ent
+		flatAll([]Node{top}, nil, &all)
+		for i, e := range all {
+			if e.Kind == "s" || e.Kind == "m" {
+				return top.Name, i, len(all) - 1, true
+			}
+		}
+	}
+	return "", 0, 0, false
+}
+
+// flatAll is flat() that keeps sockets / missing outputs as entries of their own kind.
+func flatAll(ns []Node, prefix []string, out *[]Ent) {
+	sorted := append([]Node{}, ns...)
+	sort.Slice(sorted, func(i, j int) bool { return sorted[i].Name < sorted[j].Name })
+	for _, n := range sorted {
+		path := append(append([]string{}, prefix...), n.Name)
+		*out = append(*out, Ent{Path: path, Kind: n.Kind, Content: n.Content, Exec: n.Exec, Target: n.Target})
+		if n.Kind == "d" {
+			flatAll(n.Kids, path, out)
+		}
+	}
+}
+
+func runFault(c *lib.Ctx, r *lib.Rng, compress bool, xroot string, tree []Node, outs []string, old []Node, oldOuts []string, label string) {
+	root := filepath.Join(scratch, "fault")
+	repo, cdir := filepath.Join(root, "repo"), filepath.Join(root, "cache")
+	if xroot != "" {
+		cdir = filepath.Join(xroot, "cache")
+	}
+	defer os.RemoveAll(root)
+	defer os.RemoveAll(cdir)
+	key := freshKey(r)
+	fc := FaultCase{Kind: "fault", Compress: compress, CrossFS: xroot != "", Tree: tree, Outs: outs, Old: old, OldOuts: oldOuts}
+	var found bool
+	fc.FaultOut, fc.FaultAt, fc.FaultLen, found = faultPoint(tree)
+	if !found {
+		panic("fault case without an unstorable entry")
+	}
+	if oldOuts != nil {
+		storeHere(repo, cdir, compress, key, old, oldOuts)
+	}
+	prior := listCache(cdir, key, compress)
+	order := removalOrder(cdir, key, compress)
+	storeHere(repo, cdir, compress, key, tree, outs)
+	fc.Post = listCache(cdir, key, compress)
+	fc.Hit, fc.Restored = retrieveInto(repo, cdir, compress, key, outs)
+	want := expectedTree(storable(tree))
+	switch {
+	case !fc.Hit:
+		fc.Class = "miss"
+	case sameTree(fc.Restored, want):
+		fc.Class = "complete"
+	case oldOuts != nil && sameTree(fc.Restored, expectedTree(old)):
+		fc.Class = "complete-old"
+	default:
+		fc.Class = "PARTIAL"
+	}
+	// oracle: a store that met an error must leave a miss or a complete tree (every storable entry)
+	c.Oracle()
+	if fc.Class == "PARTIAL" {
+		if compress {
+			c.Fail("store-error-partial-hit", "a compressed Store whose tarball walk returned an error part-way ("+label+") left an entry: Retrieve returns true and restores only what had been archived before the error", fc)
+		} else if fc.CrossFS && fc.FaultAt > 0 && fc.FaultAt < fc.FaultLen {
+			c.Fail("plain-store-walk-error-partial-hit", "uncompressed cache on another file system than the repository: RecursiveLink's copy fallback fails on an entry inside a directory output ("+label+"), storeFile only logs the error and Store still renames the temporary entry into place: Retrieve returns true and restores the directory without the entries that sort after the failing one", fc)
+		} else {
+			c.Fail("store-error-partial-hit-plain", "an uncompressed Store that met an error ("+label+") left an entry that Retrieve restores incompletely", fc)
+		}
+	}
+	// model side: the storable tree, the fault position inside a directory output (an output whose
+	// root is unstorable or missing is just absent from the model's source tree)
+	f := "None"
+	if fc.FaultAt > 0 {
+		f = lib.Some(lib.Pair(lib.Str(fc.FaultOut), lib.Nat(fc.FaultAt)))
+	}
+	if smallEnough(want) && smallEnough(prior) && smallEnough(fc.Post) {
+		term := lib.App("CFault", lib.Bool(compress), coqPaths(order), coqFs(prior), lib.StrList(outs), coqTree(want), f,
+			coqFs(fc.Post), coqResult(fc.Hit, fc.Restored))
+		c.Case(term, fc, fmt.Sprintf("fault|%v|%v|%v|%v|%v", compress, xroot != "", tree, outs, old), true)
+	} else {
+		c.Eval(fc, fmt.Sprintf("fault|%v|%v|%v|%v|%v", compress, xroot != "", tree, outs, old), true)
+	}
+	c.Hist("fault-outcome", fmt.Sprintf("compress=%v crossfs=%v %s:%s", compress, xroot != "", label, fc.Class))
+	c.HistN("fault-position", min(fc.FaultAt, 12))
+}
+
+// faultVariants returns every way of putting one unstorable entry into `tree`: a socket in each
+// slot of the sorted children of each directory (so the walk fails at every position), a socket or
+// a missing output at each index of the output list.
+type faultVariant struct {
+	tree  []Node
+	outs  []string
+	label string
+}
+
+func faultVariants(tree []Node) []faultVariant {
+	var out []faultVariant
+	outs := rootNames(tree)
+	// top level: the output list is walked in list order
+	for _, kind := range []string{"s", "m"} {
+		for i := 0; i <= len(tree); i++ {
+			bad := Node{Name: "zz-bad", Kind: kind}
+			t2 := append(append(append([]Node{}, tree[:i]...), bad), tree[i:]...)
+			label := "socket-output"
+			if kind == "m" {
+				label = "missing-output"
+			}
+			out = append(out, faultVariant{t2, rootNames(t2), label})
+		}
+	}
+	// inside directories: every slot among the sorted children
+	var rec func(ns []Node, rebuild func([]Node) []Node)
+	rec = func(ns []Node, rebuild func([]Node) []Node) {
+		for i, n := range ns {
+			if n.Kind != "d" {
+				continue
+			}
+			i, n := i, n
+			inner := func(kids []Node) []Node {
+				ns2 := append([]Node{}, ns...)
+				ns2[i].Kids = kids
+				return rebuild(ns2)
+			}
+			names := []string{}
+			for _, k := range n.Kids {
+				names = append(names, k.Name)
+			}
+			sort.Strings(names)
+			for slot := 0; slot <= len(names); slot++ {
+				var name string
+				switch {
+				case slot == 0:
+					name = "!sock"
+				default:
+					name = names[slot-1] + "\x01sock"
+				}
+				if (slot > 0 && !(names[slot-1] < name)) || (slot < len(names) && !(name < names[slot])) {
+					continue
+				}
+				kids := append(append([]Node{}, n.Kids...), Node{Name: name, Kind: "s"})
+				out = append(out, faultVariant{inner(kids), outs, "socket-in-directory"})
+			}
+			rec(n.Kids, inner)
+		}
+	}
+	rec(tree, func(ns []Node) []Node { return ns })
+	return out
+}
+
+// ---------------------------------------------------------------------------------------------
 
 func must(err error) {
 	if err != nil {
@@ -1157,6 +1367,59 @@ func main() {
 		runRoundTrip(c, c.Rng.Fork(), false, nil, []string{}, nil, nil, "empty-outs")
 		runRoundTrip(c, c.Rng.Fork(), true, nil, []string{}, nil, nil, "empty-outs")
 
+		// ---- 1b. read faults (error return, no kill) ---------------------------------------------
+		f := func(name, content string) Node { return Node{Name: name, Kind: "f", Content: BStr(content)} }
+		dir := func(name string, kids ...Node) Node { return Node{Name: name, Kind: "d", Kids: kids} }
+		treeA := []Node{dir("d", f("a", "1"), f("b", "2")), f("m", "meta")}
+		treeD := []Node{dir("d", f("a", "1"), f("b", "2"))}
+		treeB := []Node{f("m", "meta"), {Name: "x", Kind: "f", Content: "#!", Exec: true}, {Name: "l", Kind: "l", Target: "x"}}
+		treeC := []Node{dir("d", f("a", "1"), dir("e", f("c", "3")), Node{Name: "s", Kind: "l", Target: "a"}), dir("empty")}
+		if only == "" || only == "fault" {
+			xroot := otherFS()
+			if xroot == "" {
+				c.Note("read faults: no second file system found (tried /dev/shm, /run/shm, /run): the uncompressed copy-fallback faults were NOT exercised")
+			} else {
+				defer os.RemoveAll(xroot)
+			}
+			bases := [][]Node{treeA, treeC, {f("m", "meta"), dir("z", f("k", "v"), dir("y", f("j", "w"), Node{Name: "l", Kind: "l", Target: "../k"}))}}
+			nf := c.Scale(4, 60)
+			for i := 0; i < nf; i++ {
+				r := c.Rng.Fork()
+				budget := 3 + r.Intn(6)
+				t := randForest(r, &budget, 1, false)
+				if len(t) > 0 {
+					bases = append(bases, t)
+				}
+			}
+			nfault := 0
+			for bi, base := range bases {
+				for _, v := range faultVariants(base) {
+					for _, compress := range []bool{true, false} {
+						xr := ""
+						if !compress && v.label != "missing-output" {
+							if xroot == "" {
+								continue // on one file system a socket is hard-linked like any file: no fault
+							}
+							xr = xroot
+						}
+						r := c.Rng.Fork()
+						var old []Node
+						var oldOuts []string
+						if bi%2 == 1 || r.Chance(1, 4) { // over an existing entry of the same key
+							old, oldOuts = treeB, rootNames(treeB)
+						}
+						runFault(c, r, compress, xr, v.tree, v.outs, old, oldOuts, v.label)
+						nfault++
+						if !compress && v.label == "missing-output" && xroot != "" && bi < 3 {
+							runFault(c, c.Rng.Fork(), false, xroot, v.tree, v.outs, nil, nil, v.label)
+							nfault++
+						}
+					}
+				}
+			}
+			c.Note("read faults: %d base trees, %d faulted stores (a unix socket in every slot of every directory and of the output list, a missing output at every index; compressed on one file system, uncompressed with the cache on another one)", len(bases), nfault)
+		}
+
 		// ---- 2. crash points ------------------------------------------------------------------
 		var jobs []crashJob
 		add := func(label string, compress bool, old []Node, tmp []Node, tree []Node) {
@@ -1169,12 +1432,6 @@ func main() {
 			}
 			jobs = append(jobs, j)
 		}
-		f := func(name, content string) Node { return Node{Name: name, Kind: "f", Content: BStr(content)} }
-		dir := func(name string, kids ...Node) Node { return Node{Name: name, Kind: "d", Kids: kids} }
-		treeA := []Node{dir("d", f("a", "1"), f("b", "2")), f("m", "meta")}
-		treeD := []Node{dir("d", f("a", "1"), f("b", "2"))}
-		treeB := []Node{f("m", "meta"), {Name: "x", Kind: "f", Content: "#!", Exec: true}, {Name: "l", Kind: "l", Target: "x"}}
-		treeC := []Node{dir("d", f("a", "1"), dir("e", f("c", "3")), Node{Name: "s", Kind: "l", Target: "a"}), dir("empty")}
 		// the corpus: absent key, overwrite of files only, overwrite of a directory (DESIGN.md's
 		// predicted defect), left-over temporary entry; each plain and compressed
 		add("absent", false, nil, nil, treeA)
@@ -1349,6 +1606,17 @@ func runReplay(c *lib.Ctx, raw json.RawMessage) {
 				c.Fail(class, "replayed crash point "+x.Syscall, x)
 			}
 		}
+	case "fault":
+		var fc FaultCase
+		must(json.Unmarshal(raw, &fc))
+		xr := ""
+		if fc.CrossFS {
+			if xr = otherFS(); xr == "" {
+				panic("replay needs a second file system")
+			}
+			defer os.RemoveAll(xr)
+		}
+		runFault(c, c.Rng.Fork(), fc.Compress, xr, fc.Tree, fc.Outs, fc.Old, fc.OldOuts, "replay")
 	case "race":
 		var rc RaceCase
 		must(json.Unmarshal(raw, &rc))
